@@ -210,11 +210,14 @@ impl Ctx {
 
     fn log_line(&self, v: &Value) {
         if let Some(l) = &self.log {
-            if self.log_budget.load(Ordering::Relaxed) > 0 {
-                self.log_budget.fetch_sub(1, Ordering::Relaxed);
+            // violations are always written and flushed at once: the driver salvages them from the log when the
+            // worker does not finish
+            let is_violation = v["ev"] == "violation";
+            let within_budget = self.log_budget.fetch_update(Ordering::Relaxed, Ordering::Relaxed, |b| b.checked_sub(1)).is_ok();
+            if within_budget || is_violation {
                 let mut w = l.lock().unwrap();
                 let _ = writeln!(w, "{}", v);
-                if self.flush_calls && v["ev"] == "call" {
+                if (self.flush_calls && v["ev"] == "call") || is_violation {
                     let _ = w.flush();
                 }
             }
@@ -460,7 +463,14 @@ pub fn gen_messages(r: &mut impl RngCore, l: usize, class: usize) -> Vec<Vec<u8>
         0 => (0..l).map(|_| rand_bytes(r, 32)).collect(),
         1 => (0..l).map(|_| Vec::new()).collect(), // all empty (hence all equal)
         2 => (0..l).map(|i| vec![i as u8; 1]).collect(), // 1-byte
-        3 => (0..l).map(|_| { let n = rand_range(r, 80); rand_bytes(r, n) }).collect(),
+        3 => (0..l)
+            .map(|i| {
+                // lengths around the block / rate boundaries of SHA-256 (64) and SHAKE-256 (136) and around 255/256
+                const EDGES: [usize; 20] = [55, 56, 57, 63, 64, 65, 111, 112, 119, 120, 127, 128, 129, 135, 136, 137, 254, 255, 256, 257];
+                let n = if i % 3 == 0 { EDGES[rand_range(r, EDGES.len())] } else { rand_range(r, 80) };
+                rand_bytes(r, n)
+            })
+            .collect(),
         4 => {
             // duplicates: pairs of equal messages
             let a = rand_bytes(r, 16);
